@@ -34,7 +34,7 @@ def norm_gamma(g: dict) -> dict:
     d = {"strategy": "plain", "L": 1, "nrow": 6, "header": "explicit", "footnote": None, "source": None,
          "new_page": False, "pageby_row": "column", "pageby_header": True, "place": ["all", "last", "last"],
          "font": 1, "size": 9, "inner_repeat": True, "heights": [1, 2, 3], "group_cols_reversed": False, "recur": False,
-         "numeric_groups": False, "dup_narrow": False, "padded": False, "nulls": False, "other_col_size": None, "group_by_lines": None}
+         "numeric_groups": False, "dup_narrow": False, "padded": False, "nulls": False, "other_col_size": None, "group_by_lines": None, "nan_groups": False, "indent_wrap": None}
     d.update(g)
     if d["strategy"] == "plain":
         d["L"] = 0
@@ -58,6 +58,8 @@ def alphabet(gamma: dict, divider: bool = False, nulls: bool = False):
         evs += [(1, gg, 4) for gg in groups if gg not in (0, "s")]
     if g.get("padded"):  # d = 5: the new value at level g is the current value plus / minus one trailing blank
         evs += [(1, gg, 5) for gg in groups if gg not in (0, "s")]
+    if g.get("nan_groups"):  # d = 7: the new value at level g is the float NaN (consecutive NaN rows are one group)
+        evs += [(1, gg, 7) for gg in groups if gg not in (0, "s")]
     if nulls or g.get("nulls"):  # d = 2: the new value at level g is null ; d = 6: level g changes and the innermost new value is null
         evs += [(1, gg, 2) for gg in groups if gg not in (0, "s")]
         evs += [(1, gg, 6) for gg in groups if gg not in (0, "s") and gg < g["L"]]
@@ -85,15 +87,15 @@ def keys_of(gamma: dict, hist):
                     ordv[l] = 0 if rep else fresh[l]
                     isdiv[l] = 0
                     pad[l] = 0
-            elif gg and d in (1, 2) and isdiv[gg - 1] == d:
+            elif gg and d in (1, 2, 7) and isdiv[gg - 1] == d:
                 pass  # "becomes null / the divider" on a level that already is: not a change, nothing is re-started
             elif gg:
                 lv = gg - 1
                 fresh[lv] += 1
                 if d == 5:
                     pad[lv] ^= 1  # same value, blank added or removed
-                elif d in (1, 2):
-                    pass  # entering a divider / null group consumes no ordinal
+                elif d in (1, 2, 7):
+                    pass  # entering a divider / null / NaN group consumes no ordinal
                 elif isdiv[lv] and rep:
                     pass  # leaving a divider / null group back to the value shown before it (x, -----, x)
                 elif d == 4 and before[lv] is not None:
@@ -104,7 +106,7 @@ def keys_of(gamma: dict, hist):
                     if rep and before[lv] is not None and d != 4:
                         ordv[lv] = max(ordv[lv], top[lv] + 1)
                     top[lv] = max(top[lv], ordv[lv])
-                isdiv[lv] = int(d) if d in (1, 2) else (isdiv[lv] if d == 5 else 0)
+                isdiv[lv] = int(d) if d in (1, 2, 7) else (isdiv[lv] if d == 5 else 0)
                 if d != 5:
                     pad[lv] = 0
                 for l in range(lv + 1, L):
@@ -116,7 +118,7 @@ def keys_of(gamma: dict, hist):
                     isdiv[L - 1] = 1
                 if d == 6 and lv + 1 < L:  # outer change whose innermost new value is null (null on both sides if it was null before)
                     isdiv[L - 1] = 2
-        rows.append(tuple((-1 if isdiv[l] == 1 else None) if isdiv[l] else (f"{ordv[l]}p" if pad[l] else ordv[l]) for l in range(L)))
+        rows.append(tuple((-1 if isdiv[l] == 1 else ("nan" if isdiv[l] == 7 else None)) if isdiv[l] else (f"{ordv[l]}p" if pad[l] else ordv[l]) for l in range(L)))
         subs.append(sub)
     start = []
     for i in range(len(rows)):
@@ -143,6 +145,8 @@ def spec_of(gamma: dict, hist) -> dict:
     if g["size"] != 9:
         body["text_font_size"] = g["size"]
     pb, sl, _ = keys_of(g, hist)
+    if g.get("indent_wrap"):
+        spec["indent_wrap"] = g["indent_wrap"]
     if g.get("other_col_size"):
         # per-column font sizes: the tall column keeps the layout's size, the other data column gets another one; the vector
         # is given per DataFrame column (group columns first), as the library documents it
@@ -157,6 +161,8 @@ def spec_of(gamma: dict, hist) -> dict:
         spec["col_rel_width"] = [3, 1]
     if g.get("numeric_groups"):
         spec["page_by_numeric"] = True
+    if g.get("nan_groups"):
+        spec["page_by_numeric"] = "float"
     if strat == "page_by":
         spec["page_by"] = pb
         spec["new_page"] = g["new_page"]
@@ -275,10 +281,10 @@ def canon(gamma: dict, hist, obs: Obs):
     starts = sum(1 for r, _ in data if start[r] not in (0,))
     cont = bool(data) and start[data[0][0]] == 0 and heads > 0
     gn = norm_gamma(gamma)
-    if gn.get("nulls") or gn.get("padded"):
+    if gn.get("nulls") or gn.get("padded") or gn.get("nan_groups"):
         # events "the value becomes null" / "a blank is added or removed" act on the current value: whether they change it
         # depends on what the last row holds (null -> null is no change), which therefore belongs to the state
-        kind = tuple((v if v is None or v == -1 else ("p" if isinstance(v, str) else 0)) for v in (col[-1] for col in pb))
+        kind = tuple((v if v is None or v == -1 or v == "nan" else ("p" if isinstance(v, str) else 0)) for v in (col[-1] for col in pb))
         return (D, heads, starts, cont, bool(data), kind)
     if norm_gamma(gamma)["strategy"] == "subline+page_by":
         # the event 's' re-starts the page_by ordinals: whether it keeps the running page_by value depends on
